@@ -309,6 +309,21 @@ func c08History(run *hx.Run, o *hx.Oracle, dir string, h int, steps int) {
 		}
 		hist = append(hist, fmt.Sprintf("v%d:%s", version, w.kind))
 		run.See("write_kind", w.kind)
+		// a handle opened only now (while the long-lived ones stay open and idle) must see the latest state too
+		if step%3 == 0 {
+			if fresh, err := sqlittle.Open(path); err != nil {
+				fail("read-error/fresh-handle-open", err.Error(), step)
+				return
+			} else {
+				key, what, _ := compareWholeDB(o, path, fresh, nil, dropped)
+				fresh.Close()
+				run.Eval(1)
+				if key != "" && key != "INCONCLUSIVE" {
+					fail("fresh-handle/"+key, "a handle opened after the commit, while an older handle on the same file is open: "+what, step)
+					return
+				}
+			}
+		}
 		// sometimes the very first call after the commit is Columns() / a low-level schema call
 		if rng.Intn(2) == 0 {
 			wantCols, err := o.Query(path, "SELECT name FROM pragma_table_info('t') ORDER BY cid")
